@@ -211,7 +211,8 @@ def gen_term_case(r, idx, wild=False, nops=None, kinds=None):
     w, h = r.rng(1, 9), r.rng(1, 5)
     long = nops is None and r.chance(1, 30)
     if long:
-        w, h = r.pick([80, 132, 255, 256, 300]), r.pick([24, 50, 255, 256])
+        # wide OR tall, not both: the reference terminal's grid is walked on every erase
+        w, h = r.pick([(80, 24), (132, 5), (255, 3), (256, 2), (300, 2), (3, 255), (2, 256), (5, 300)])
     if not r.chance(1, 8):
         lines.append("T 0 size %d %d" % (w, h))
     else:
